@@ -462,6 +462,21 @@ def _judge(case, ctx, tr=None):
         tr = gen.make_track([(p[0], p[1], 0.5 * i - 1.0) for i, p in enumerate(pts)], ms)
         if (n + int(tol * 977)) % 4 == 2:
             tr, _how = gen.derive(tr, (pts, tol, mode))
+        elif (n + int(tol * 977)) % 4 == 3 and n >= 2:
+            # call history: the curvilinear abscissa (and a feature of the caller's) was computed when the coordinates
+            # were still in kilometres; the caller then converted them to metres IN PLACE -- the features are stale, the
+            # geometry to simplify is the one the track has now
+            from tracklib.algo.cinematics import computeAbsCurv
+            for i, p in enumerate(pts):
+                tr.getObs(i).position.setX(p[0] / 1000.0)
+                tr.getObs(i).position.setY(p[1] / 1000.0)
+            r0 = M.call(computeAbsCurv, tr)
+            M.call(tr.createAnalyticalFeature, "quality", [float(i % 4) for i in range(n)])
+            for i, p in enumerate(pts):
+                tr.getObs(i).position.setX(p[0])
+                tr.getObs(i).position.setY(p[1])
+            if not M.is_raised(r0):
+                cls.append("features_computed_before_the_coordinates_were_rescaled_in_place")
     before = _snapshot(tr)
     src_obs = [tr.getObs(i) for i in range(n)]
     index_of = {t: i for i, t in enumerate(before["t"])}
@@ -636,7 +651,7 @@ def classify(case, witness):
 
 # floors for the call-history workloads added in session 3 (a run in which they were silently skipped is inconclusive)
 _floors_base = floors
-_FLOORS_EXTRA = {'classes': {'history_portion': 5000, 'history_resimplified': 5000,
+_FLOORS_EXTRA = {'classes': {'features_computed_before_the_coordinates_were_rescaled_in_place': 2000, 'history_portion': 5000, 'history_resimplified': 5000,
                              'coordinates_held_as_python_ints': 500, 'track_of_400+_observations': 60}}
 
 
